@@ -882,6 +882,155 @@ theorem evalSeg_live (s : Seg) (ijs : Bool) {i : GoErr} {fl : Flow}
     obtain ⟨a1, a2⟩ := applyFrame_live j f (headIsJS tl ijs) hi ih.1
     exact ⟨by simpa [evalSeg] using a1, by simp [evalSeg, ih.2, a2]⟩
 
+/-! ### Nothing ever observes an uncatchable error — also when native frames drop it -/
+
+theorem GoErr.liveInterrupt_isUncatchable {e i : GoErr} (h : e.liveInterrupt = some i) : i.isUncatchable = true := by
+  induction e with
+  | interruptedE j f _ => simp [GoErr.liveInterrupt] at h; subst h; rfl
+  | wrap j inner ih => exact ih (by simpa [GoErr.liveInterrupt] using h)
+  | join j a b iha ihb =>
+    simp only [GoErr.liveInterrupt] at h
+    cases ha : a.liveInterrupt with
+    | some x => rw [ha] at h; simp at h; subst h; exact iha ha
+    | none => rw [ha] at h; exact ihb h
+  | _ => simp [GoErr.liveInterrupt] at h
+
+/-- The flow is a normal return, an uncatchable error in flight, or a pending interrupt. -/
+def Quiet : Flow → Prop
+  | .normal => True
+  | .panic (.goErr e) _ => e.isUncatchable = true
+  | .pending e => e.isUncatchable = true
+  | _ => False
+
+theorem applyFrame_quiet (idx : Nat) (f : Frame) (cjs : Bool) {fl : Flow} (hc : Quiet fl) :
+    Quiet (applyFrame idx f cjs fl).1 ∧ ∀ l ∈ (applyFrame idx f cjs fl).2, l.kind = .fin := by
+  have panicCase : ∀ (e : GoErr) (o : StackTop), e.isUncatchable = true →
+      Quiet (applyFrameCore idx f cjs (.panic (.goErr e) o)).1 ∧
+        (applyFrameCore idx f cjs (.panic (.goErr e) o)).2 = [] := by
+    intro e o hu
+    by_cases hf : f = .fcs
+    · subst hf
+      cases hl : e.liveInterrupt with
+      | none =>
+        cases cjs <;>
+          simp [applyFrameCore, callable, invoke, jsCall, runWrapped, vmTry, handleThrow, handleThrowLoop,
+            exceptionFromValue, recoverUncatchable, asUncatchableException, hu, hl, Quiet]
+      | some i =>
+        have := GoErr.liveInterrupt_isUncatchable hl
+        cases cjs <;>
+          simp [applyFrameCore, callable, invoke, jsCall, runWrapped, vmTry, handleThrow, handleThrowLoop,
+            exceptionFromValue, recoverUncatchable, asUncatchableException, hu, hl, Quiet, this]
+    · have hd : f.dropsErrors = false := by cases f <;> simp_all [Frame.dropsErrors]
+      obtain ⟨x', o', h, hunc, _⟩ := applyFrame_unclassifiable idx f cjs (x := .goErr e) rfl (Or.inl hd) o
+      have h' : applyFrameCore idx f cjs (.panic (.goErr e) o) = (.panic x' o', []) := by
+        simpa [applyFrame] using h
+      rw [h']
+      obtain ⟨_, hp, _⟩ := hunc
+      cases x' with
+      | goErr e' =>
+        have hpe : e'.peel = e.peel := by simpa [Pv.peel] using hp
+        refine ⟨?_, rfl⟩
+        show e'.isUncatchable = true
+        rw [← GoErr.isUncatchable_peel, hpe, GoErr.isUncatchable_peel]; exact hu
+      | val w => simp [Pv.peel] at hp
+      | exc ex => simp [Pv.peel] at hp
+      | sentinel k => simp [Pv.peel] at hp
+      | other n => simp [Pv.peel] at hp
+  cases fl with
+  | normal =>
+    refine ⟨by rw [applyFrame_normal]; trivial, ?_⟩
+    intro l hl
+    rw [applyFrame_normal_log _ _ _ l hl]
+  | pending e =>
+    have hu : e.isUncatchable = true := hc
+    cases hp : f.pureNative with
+    | true => simp [applyFrame, hp, Quiet, hu]
+    | false =>
+      obtain ⟨a, b⟩ := panicCase e .other hu
+      refine ⟨by simpa [applyFrame, hp] using a, ?_⟩
+      intro l hl
+      simp [applyFrame, hp, b] at hl
+  | panic x o =>
+    cases x with
+    | goErr e =>
+      obtain ⟨a, b⟩ := panicCase e o hc
+      refine ⟨by simpa [applyFrame] using a, ?_⟩
+      intro l hl
+      simp [applyFrame, b] at hl
+    | val w => simp [Quiet] at hc
+    | exc ex => simp [Quiet] at hc
+    | sentinel k => simp [Quiet] at hc
+    | other n => simp [Quiet] at hc
+
+theorem evalSeg_quiet (s : Seg) (ijs : Bool) {fl : Flow} (hc : Quiet fl) :
+    Quiet (evalSeg s fl ijs).1 ∧ ∀ l ∈ (evalSeg s fl ijs).2, l.kind = .fin := by
+  induction s with
+  | nil => exact ⟨hc, by simp [evalSeg]⟩
+  | cons hd tl ih =>
+    obtain ⟨j, f⟩ := hd
+    obtain ⟨a1, a2⟩ := applyFrame_quiet j f (headIsJS tl ijs) ih.1
+    refine ⟨by simpa [evalSeg] using a1, ?_⟩
+    intro l hl
+    simp only [evalSeg, List.mem_append] at hl
+    rcases hl with hl | hl
+    · exact ih.2 l hl
+    · exact a2 l hl
+
+theorem vmTry_invoke_quiet (b : Bool) {fl : Flow} (hc : Quiet fl) :
+    vmTry (invoke b fl) = .ok ∨ ∃ x o, vmTry (invoke b fl) = .panic x o := by
+  cases fl with
+  | normal => left; cases b <;> simp [invoke]
+  | pending e => right; cases b <;> simp [invoke, jsCall, vmTry, handleThrow, handleThrowLoop, exceptionFromValue]
+  | panic x o =>
+    cases x with
+    | goErr e => right; cases b <;> simp [invoke, jsCall, vmTry, handleThrow, handleThrowLoop, exceptionFromValue]
+    | val w => simp [Quiet] at hc
+    | exc ex => simp [Quiet] at hc
+    | sentinel k => simp [Quiet] at hc
+    | other n => simp [Quiet] at hc
+
+theorem runJobs_quiet (p : Payload) (hp : Quiet p.flow) :
+    ∀ ss : List Seg, ∀ l ∈ (runJobs p ss).log, l.kind = .fin := by
+  intro ss
+  induction ss with
+  | nil => intro l hl; simp [runJobs] at hl
+  | cons s tl ih =>
+    have hin : Quiet (segInner p tl.isEmpty).1 := by
+      cases tl with
+      | nil => simpa [segInner] using hp
+      | cons _ _ => simp [segInner, Quiet]
+    obtain ⟨c1, c2⟩ := evalSeg_quiet s (segInner p tl.isEmpty).2 hin
+    intro l hl
+    simp only [runJobs] at hl
+    rcases vmTry_invoke_quiet (headIsJS s (segInner p tl.isEmpty).2) c1 with h | ⟨x, o, h⟩
+    · rw [h] at hl
+      simp only [List.mem_append] at hl
+      rcases hl with hl | hl
+      · exact c2 l hl
+      · exact ih l hl
+    · rw [h] at hl
+      exact c2 l hl
+
+theorem hostRun_quiet (entry : Entry) (chain : List Frame) (p : Payload) (hp : Quiet p.flow) :
+    ∀ l ∈ (hostRun entry chain p).log, l.kind = .fin := by
+  simp only [hostRun]
+  generalize splitSegs (indexed 0 chain) = sg
+  obtain ⟨s0, ss⟩ := sg
+  have hin : Quiet (segInner p ss.isEmpty).1 := by
+    cases ss with
+    | nil => simpa [segInner] using hp
+    | cons _ _ => simp [segInner, Quiet]
+  obtain ⟨_, c2⟩ := evalSeg_quiet s0 (segInner p ss.isEmpty).2 hin
+  have hj := runJobs_quiet p hp ss
+  intro l hl
+  simp only [hostRunSegs] at hl
+  split at hl
+  · simp only [List.mem_append] at hl
+    rcases hl with hl | hl
+    · exact c2 l hl
+    · exact hj l hl
+  · exact c2 l hl
+
 theorem carried_errIs {ev : ErrVal} {e : GoErr} (h : ev.carried = some e) (t : Nat) :
     ev.errIs t = e.errIs t := by
   cases ev with
